@@ -533,13 +533,20 @@ class NDNApp:
         del self._prefix_tree[name]
 
     def _on_nack(self, name: FormalName, nack_reason: int):
+        # Same split as in express_raw_interest: the implicit digest is not part of the tree key
+        if len(name) > 0 and Component.get_type(name[-1]) == Component.TYPE_IMPLICIT_SHA256:
+            node_name = name[:-1]
+            implicit_sha256 = Component.get_value(name[-1])
+        else:
+            node_name = name
+            implicit_sha256 = b''
         try:
-            node = self._int_tree[name]
+            node = self._int_tree[node_name]
         except KeyError:
             node = None
         if node:
-            if node.nack_interest(nack_reason):
-                del self._int_tree[name]
+            if node.nack_interest(nack_reason, implicit_sha256):
+                del self._int_tree[node_name]
 
     async def _on_data(self, name: FormalName, meta_info: MetaInfo,
                        content: BinaryStr | None, sig: SignaturePtrs, raw_packet):
